@@ -359,6 +359,8 @@ INVALID = [
     ("bs", dict(knots=[5.0]), "knot above the data"),
     ("bs", dict(knots=[-5.0]), "knot below the data"),
     ("bs", dict(df=5, lower_bound=0.9, upper_bound=0.1), "lower bound above upper bound"),
+    ("bs", dict(df=5, knots=[0.3, 0.6], degree=3, intercept=True), "df and knots inconsistent once the intercept column is counted"),
+    ("bs", dict(df=4, knots=[0.3, 0.6], degree=2, intercept=True), "df and knots inconsistent (degree 2, intercept)"),
     ("bs", dict(knots=[0.2], lower_bound=0.5), "knot below the lower bound"),
     ("bs", dict(knots=[0.8], upper_bound=0.5), "knot above the upper bound"),
 ]
@@ -377,6 +379,17 @@ def invalid_driver(m):
             m.violation("invalid-parameters-refused", f"{t}(**{p}) accepted: {why}", key="accepted:" + why)
         except Exception:
             pass
+    # df AND knots given consistently (the intercept column counts): accepted, df columns
+    for p, ncol in ((dict(df=6, knots=[0.3, 0.6], degree=3, intercept=True), 6), (dict(df=5, knots=[0.3, 0.6], degree=3), 5),
+                    (dict(df=5, knots=[0.3, 0.6], degree=2, intercept=True), 5), (dict(df=3, knots=[0.5], degree=1, intercept=True), 3)):
+        m.ev("bs-columns")
+        m.case({"consistent": {k: repr(v) for k, v in p.items()}}, canon=["bs-consistent", repr(p)])
+        try:
+            B = np.asarray(TRANSFORMS["bs"]()(x, **p))
+            if B.shape != (len(x), ncol):
+                m.violation("bs-columns", f"bs(**{p}) returned shape {B.shape}, {ncol} columns expected", key="bs-columns")
+        except Exception as e:
+            m.violation("bs-columns", f"bs(**{p}) with consistent df and knots refused: {type(e).__name__}: {e}", key="bs-consistent-refused")
     # the same refusals where the offending knot is the number 0 (a falsy value) or a boundary is 0
     shifted = [(x + 1.0, dict(knots=[0.0, 1.5]), "knot 0 below the data"), (x - 2.0, dict(knots=[-1.5, 0.0]), "knot 0 above the data"),
                (x - 0.5, dict(knots=[0.0], lower_bound=0.2, upper_bound=1.0), "knot 0 below the lower bound"),
